@@ -678,22 +678,15 @@ func main() {
 		scale = f
 	}
 	after := func(d time.Duration) time.Time { return start.Add(time.Duration(float64(d) * scale)) }
-	dl := after(70 * time.Second)
 	if rep.Thorough() {
 		depth, nFull, nRed = 3, 2, 4
-		dl = after(12 * time.Minute)
 	}
-	if os.Getenv("C02_ONLY") != "extras" { // development aid: run only the families of extra.go
-		typedRoundTrip(depth, dl)
-		carriers(nFull, nRed, dl.Add(20*time.Second))
-		catalogue()
-	} else {
-		rep.Cap("C02_ONLY=extras: families (A), (B) and the catalogue were skipped")
-	}
-	// families (C)-(F) take a few seconds (quick) / about a minute (thorough) on an idle machine
-	xdl := after(150 * time.Second)
+	// Families (C)-(F) run first under their own cap: they take a few seconds (quick) / well under
+	// a minute (thorough) on an idle machine, and must not be starved by (A), which in the thorough
+	// tier always runs into its deadline.
+	xdl := after(100 * time.Second)
 	if rep.Thorough() {
-		xdl = after(14*time.Minute + 30*time.Second)
+		xdl = after(4 * time.Minute)
 	}
 	timed := func(name string, f func()) {
 		t0 := time.Now()
@@ -703,8 +696,20 @@ func main() {
 	timed("name_lengths", func() { nameLengths(rep.Thorough(), xdl) })
 	timed("used_destinations", func() { usedDestinations(xdl) })
 	timed("alive_carriers", func() { aliveCarriers(xdl) })
-	timed("size_classes", func() { sizeClasses(rep.Thorough(), xdl) })
 	timed("alive_typed", func() { aliveTyped(xdl) })
+	timed("size_classes", func() { sizeClasses(rep.Thorough(), xdl) })
+	// (A) and (B): quick gets 70 s from here, thorough runs until minute 12 of the whole run
+	dl := time.Now().Add(time.Duration(70 * float64(time.Second) * scale))
+	if rep.Thorough() {
+		dl = after(12 * time.Minute)
+	}
+	if os.Getenv("C02_ONLY") != "extras" { // development aid: run only the families of extra.go
+		typedRoundTrip(depth, dl)
+		carriers(nFull, nRed, dl.Add(20*time.Second))
+		catalogue()
+	} else {
+		rep.Cap("C02_ONLY=extras: families (A), (B) and the catalogue were skipped")
+	}
 	rep.Extra("type_depth", depth)
 	rep.Extra("nodes_full_alphabet", nFull)
 	rep.Extra("nodes_reduced_alphabet", nRed)
